@@ -32,7 +32,7 @@ var realStub = map[string]string{
 var props = map[string]*propCfg{
 	"C09": {
 		ID: "C09", Scenario: "shared", Race: true,
-		QuickRuns: 36000, ThorRuns: 250000, QuickChunk: 250, ThorChunk: 1000, ChunkTimeoS: 1800,
+		QuickRuns: 36000, ThorRuns: 160000, QuickChunk: 250, ThorChunk: 1000, ChunkTimeoS: 1800,
 		Rule: "one evaluation = one simulated run: a seed-derived pool of formulas parsed once, 2-8 task goroutines each with its own runner, data map and op script (EVAL/FIELDS/PARSE/FORMAT/POOL_FLUSH) executed under the token scheduler with a seed-chosen strategy, then the same scripts sequentially on re-parsed trees. A run is non-trivial when at least one context switch happened inside a library call; distinct = distinct (sequential outcome hash, schedule trace hash) pairs.",
 		Assumptions: []string{
 			"yield points are statement boundaries of package formula only; code inside decimal and the standard library runs atomically from the scheduler's point of view (the race detector still sees its memory accesses)",
